@@ -22,8 +22,8 @@ from vlib import Result, enc_list, f2b, Toks, close
 
 PROP = 'C13'
 META = {
-    'level_text': 'Lean 4 theorems, for any linearly ordered field, every schedule and every history of solver calls (by induction over the call list): every recorded slice has temperature = schedule(time) (setup slice and every step, Euler and RK4 glue, either lookup implementation); constructor == setter (same function, same isothermal flag) for number / break points / callable in the precipitation and the diffusion TemperatureParameters; for increasing (hours, kelvin) break points the schedule is the piecewise-linear interpolant in seconds (x3600), constant outside; lookup freshness: every growth-rate evaluation reads only table blocks, and hands out / records only equilibrium compositions, computed within maxTempChange of its own temperature, for heating and cooling, fast or arbitrarily slow, with re-mesh and extension anywhere. The pre-repair code is refuted in Lean (lookup_stale: 10 steps of +0.5 K at threshold 1 K; ctorAsWas_ne_setter). Models are tied to /repo on every run by op-sequence correspondence and by call-by-call trace refinement of real Al-Zr runs; the property predicate is also evaluated directly on logged build temperatures and against independent thermodynamic evaluations.',
-    'level_note': 'Trusted: Lean kernel + Mathlib (propext, Classical.choice, Quot.sound); the hand models equal the Python code only as far as this run compared them. "In use" means: read by _singleGrowthBinary / written into a slice by _growthRateBinary; _calcMassBalance of the same slice runs BEFORE the refresh and can read a table one step staler than the threshold (counted as an observation, not proved, not a violation). np.interp is modelled by a left-to-right walk: exact for sorted break points and for <= 4 points in any order; unsorted longer lists, NaN times and user lists mutated after the call are outside the statement. The schedule is assumed to be a function of time. Exact-field arithmetic instead of IEEE doubles (all comparisons in the lookup rule are the same float expressions on both sides; interpolation compared to 1e-12). Multicomponent runs have no lookup table and are not part of the freshness clause.',
+    'level_text': 'Lean 4 theorems, for any linearly ordered field, every schedule and every history of solver calls (by induction over the call list): every recorded slice has temperature = schedule(time) (setup slice and every step, Euler and RK4 glue, either lookup implementation); constructor == setter (same function, same isothermal flag) for number / break points / callable in the precipitation and the diffusion TemperatureParameters; for increasing (hours, kelvin) break points the schedule is the piecewise-linear interpolant in seconds (x3600), constant outside; a specification call (constructor or setter, both packages) leaves the break-point arrays of the caller unchanged, and re-using the very same arrays for further specifications / objects / models leaves every object with the schedule it was specified with (store-of-arrays model; reference- and value-semantics coincide when the caller does not write afterwards); lookup freshness: every growth-rate evaluation reads only table blocks, and hands out / records only equilibrium compositions, computed within maxTempChange of its own temperature, for heating and cooling, fast or arbitrarily slow, with re-mesh and extension anywhere. The pre-repair code is refuted in Lean (lookup_stale: 10 steps of +0.5 K at threshold 1 K; ctorAsWas_ne_setter). Models are tied to /repo on every run by op-sequence correspondence and by call-by-call trace refinement of real Al-Zr runs; the property predicate is also evaluated directly on logged build temperatures and against independent thermodynamic evaluations.',
+    'level_note': 'Trusted: Lean kernel + Mathlib (propext, Classical.choice, Quot.sound); the hand models equal the Python code only as far as this run compared them. "In use" means: read by _singleGrowthBinary / written into a slice by _growthRateBinary; _calcMassBalance of the same slice runs BEFORE the refresh and can read a table one step staler than the threshold (counted as an observation, not proved, not a violation). Observation, not part of the statement and not checked: both classes keep references to the lists/arrays of the caller (late binding), so a caller who overwrites his array AFTER specifying changes the stored schedule (Lean: ref_alias_witness). np.interp is modelled by a left-to-right walk: exact for sorted break points and for <= 4 points in any order; unsorted longer lists, NaN times and user lists mutated after the call are outside the statement. The schedule is assumed to be a function of time. Exact-field arithmetic instead of IEEE doubles (all comparisons in the lookup rule are the same float expressions on both sides; interpolation compared to 1e-12). Multicomponent runs have no lookup table and are not part of the freshness clause.',
     'technique': 'Lean 4 proof over ordered fields (state machines, induction over call histories) + op-sequence correspondence + trace refinement of real runs',
     'design_ref': 'DESIGN.md section 6, C13',
 }
@@ -362,6 +362,226 @@ def corr_sched(ctx, res, n, oracle_only=False, cases=None):
                 res.disagree('np.interp', {'x': x, 'xp': a[1], 'fp': a[2]}, w, l)
 
 
+# ---------------------------------------------------------------- the caller's arrays
+# which semantics of Model/TempSched.lean the code has: '0' = references to the caller's arrays are kept
+# (`self.Tparameters = (times, temperatures)`), '1' = the contents are stored at specification time
+ALIAS_MODEL = os.environ.get('C13_ALIAS_MODEL', '0')
+CONTAINERS = ['list', 'i64', 'f64']
+
+
+def mk_container(cont, vals):
+    if cont == 'list':
+        return [float(v) for v in vals]
+    if cont == 'i64':
+        return np.array([int(v) for v in vals], dtype=np.int64)
+    return np.array([float(v) for v in vals], dtype=np.float64)
+
+
+def snap(obj):
+    return (type(obj).__name__, str(getattr(obj, 'dtype', '')), [float(v) for v in obj])
+
+
+def gen_world_case(rng, diffusion):
+    store = []
+    for _ in range(rng.randint(1, 3)):
+        n = rng.randint(2, 5)
+        ch = rng.choice(['list', 'i64', 'f64', 'f64', 'f64'])
+        if ch == 'i64':
+            hs = sorted(rng.sample(range(0, 60), n))
+        else:
+            hs = [rng.choice([0.0, rng.uniform(0, 2)])]
+            for _ in range(n - 1):
+                hs.append(hs[-1] + rng.choice([rng.uniform(1e-3, 0.02), rng.uniform(0.2, 6)]))
+        ct = rng.choice(['list', 'i64', 'f64', 'f64'])
+        Ts = [rng.randint(300, 1200) for _ in range(n)] if ct == 'i64' else [rng.uniform(300, 1200) for _ in range(n)]
+        store.append((ch, hs)); store.append((ct, Ts))
+    npairs = len(store) // 2
+    cur = [list(v) for _, v in store]                # evolving contents, to keep writes order-preserving
+    sites = ['setTemperatureArray'] if diffusion else ['setTemperatureArray', 'setTemperatureParameters']
+    j = rng.randrange(npairs)
+    ops = [('C', 2 * j, 2 * j + 1)]
+    nobj = 1
+    for _ in range(rng.randint(2, 7)):
+        # no writes by the caller AFTER a specification: what the stored schedule does then is not part of the property
+        # (observation: the classes keep references, see ref_alias_witness); writes only happen BEFORE the first use of an array
+        k = rng.choice(['C', 'A', 'A', 'W'])
+        j = rng.randrange(npairs)
+        if k == 'C':
+            ops.append(('C', 2 * j, 2 * j + 1)); nobj += 1
+        elif k == 'A':
+            ops.append(('A', rng.randrange(nobj), 2 * j, 2 * j + 1, rng.choice(sites)))
+        else:
+            used = {a for o in ops for a in (o[1:3] if o[0] == 'C' else o[2:4] if o[0] == 'A' else ())}
+            free = [a for a in range(len(store)) if a not in used]
+            if not free:
+                continue
+            aid = rng.choice(free)
+            cont, _ = store[aid]
+            vals = cur[aid]
+            i = rng.randrange(len(vals))
+            if aid % 2 == 0:                         # hours: stay strictly increasing
+                lo = vals[i - 1] if i > 0 else vals[i] - 2
+                hi = vals[i + 1] if i + 1 < len(vals) else vals[i] + 5
+                if cont == 'i64':
+                    cand = [x for x in range(int(lo) + 1, int(hi)) if x != vals[i]]
+                    if not cand:
+                        continue
+                    v = rng.choice(cand)
+                else:
+                    v = rng.uniform(lo + (hi - lo) * 0.1, hi - (hi - lo) * 0.1)
+            else:
+                v = rng.randint(300, 1200) if cont == 'i64' else rng.uniform(300, 1200)
+            cur[aid][i] = v
+            ops.append(('W', aid, i, float(v)))
+    pts = [0.0, -rng.uniform(1, 1e4), 1e7]
+    for aid in range(0, len(store), 2):
+        for h in store[aid][1] + cur[aid]:
+            pts.append(h * 3600 + rng.uniform(-1500, 1500))
+    rng.shuffle(pts)
+    z = [rng.uniform(0, 1e-3) for _ in range(rng.randint(1, 3))] if diffusion else None
+    return {'family': 'sched-world', 'diffusion': diffusion, 'store': store, 'ops': ops, 'times': pts[:rng.randint(4, 8)], 'z': z}
+
+
+def exec_world_case(case):
+    vlib.use_repo()
+    diffusion = case['diffusion']
+    if diffusion:
+        from kawin.diffusion.DiffusionParameters import TemperatureParameters as TP
+    else:
+        from kawin.precipitation.PrecipitationParameters import TemperatureParameters as TP
+    store = [mk_container(c, v) for c, v in case['store']]
+    objs, out = [], []
+
+    def call(o, t):
+        try:
+            with quiet():
+                v = o(np.asarray(case['z']), t) if diffusion else o(t)
+            return [float(x) for x in np.atleast_1d(v)] if diffusion else float(v)
+        except Exception:
+            return None
+
+    for op in case['ops']:
+        before = [snap(a) for a in store]
+        with quiet():
+            if op[0] == 'C':
+                objs.append(TP(store[op[1]], store[op[2]]))
+            elif op[0] == 'A':
+                getattr(objs[op[1]], op[4])(store[op[2]], store[op[3]])
+            else:
+                store[op[1]][op[2]] = op[3]
+        out.append((before, [snap(a) for a in store], [[call(o, t) for t in case['times']] for o in objs]))
+    return out
+
+
+def world_line(case):
+    ops = []
+    for op in case['ops']:
+        if op[0] == 'C':
+            ops.append('C %d %d' % (op[1], op[2]))
+        elif op[0] == 'A':
+            ops.append('A %d %d %d' % (op[1], op[2], op[3]))
+        else:
+            ops.append('W %d %d %s' % (op[1], op[2], f2b(op[3])))
+    st = ' '.join(enc_list(v) for _, v in case['store'])
+    return 'ts.world %s %s %d %s %d %s %s %s' % (ALIAS_MODEL, 'D' if case['diffusion'] else 'P', len(case['store']), st,
+                                                 len(ops), ' '.join(ops), enc_list(case['z'] or []), enc_list(case['times']))
+
+
+def parse_world_answer(case, line):
+    t = Toks(line)
+    if not t.ok:
+        return None
+    res, nobj = [], 0
+    for op in case['ops']:
+        nobj += op[0] == 'C'
+        st = [t.flts() for _ in case['store']]
+        ev = []
+        for _ in range(nobj):
+            vals = []
+            for _ in case['times']:
+                if t.t[t.i] == 'E':
+                    t.i += 1; vals.append(None)
+                else:
+                    vals.append(t.flts() if case['diffusion'] else t.flt())
+            ev.append(vals)
+        res.append((st, ev))
+    return res
+
+
+def check_world_case(res, case, impl, model):
+    diffusion = case['diffusion']
+    cls = 'diffusion' if diffusion else 'precipitation'
+    desc = {k: case[k] for k in ('family', 'diffusion', 'store', 'ops', 'times', 'z')}
+    refs = []          # per object: the (hours, kelvin) contents at the moment it was specified, and whether it already deviated
+    for i, (op, (before, after, evals)) in enumerate(zip(case['ops'], impl)):
+        res.count('world-op:' + op[0] + (':' + '+'.join(case['store'][a][0] for a in (op[-3], op[-2])) if op[0] == 'A' else
+                                         ':' + '+'.join(case['store'][a][0] for a in op[1:3]) if op[0] == 'C' else ''))
+        # ---- correspondence
+        if model is not None:
+            mst, mev = model[i]
+            if [a[2] for a in after] != mst:
+                res.disagree("caller's arrays after op %d %r" % (i, op), desc, [a[2] for a in after], mst)
+            for o, (v, mv) in enumerate(zip(evals, mev)):
+                if any(not same_val(x, y, 0) for x, y in zip(v, mv)):
+                    res.disagree('object %d after op %d %r' % (o, i, op), desc, v, mv); break
+        # ---- oracle: a specification returns its arguments unchanged (values, dtype, container)
+        if op[0] in ('C', 'A'):
+            ids = (op[1], op[2]) if op[0] == 'C' else (op[2], op[3])
+            site = 'constructor' if op[0] == 'C' else op[4]
+            for a in range(len(after)):
+                if before[a] != after[a]:
+                    res.violate('specification-modifies-argument-%s-%s-%s' % (case['store'][a][0], cls, site),
+                                "%s TemperatureParameters %s(hours, kelvin) changed the caller's %s array %d in place" % (cls, site, case['store'][a][0], a),
+                                dict(desc, op=i), after[a][2], before[a][2])
+                    break
+            new = ('2', list(before[ids[0]][2]), list(before[ids[1]][2]), 'world')
+            if op[0] == 'C':
+                refs.append([new, False])
+            else:
+                refs[op[1]] = [new, False]
+        # ---- oracle: every object still is the schedule it was given (independent reference on hours*3600)
+        for o, vals in enumerate(evals):
+            a, dirty = refs[o]
+            if dirty:
+                continue
+            scale = max(abs(x) for x in a[2])
+            for t, v in zip(case['times'], vals):
+                want = ref_sched(a, t)
+                if want is None or want == 'tie':
+                    res.near_tie_skipped += 1; continue
+                got = v if not diffusion or v is None else v[0]
+                if v is None or not close(got, want, 1e-9, scale) or (diffusion and any(x != v[0] for x in v)):
+                    refs[o][1] = True
+                    if op[0] == 'W':
+                        res.count('schedule followed a later write of the caller (not part of the property)')
+                        break
+                    else:
+                        site = 'constructor' if op[0] == 'C' else op[4]
+                        mine = (op[0] == 'C' and o == len(evals) - 1) or (op[0] == 'A' and o == op[1])
+                        key = 'schedule-wrong-after-%s-%s-%s' % ('own-specification' if mine else 'specification-of-another-object', cls, site)
+                        what = ('object %d does not give the (hours, kelvin) schedule it was specified with' % o) if mine else \
+                               ('specifying another object from the same arrays changed the schedule of object %d' % o)
+                    res.violate(key, what, dict(desc, op=i, object=o, t=t), v, want)
+                    break
+
+
+def corr_world(ctx, res, n, oracle_only=False, cases=None):
+    cases = cases or [gen_world_case(ctx.rng, diffusion=(i % 2 == 1)) for i in range(n)]
+    impl = [exec_world_case(c) for c in cases]
+    model = None
+    if ctx.driver_ok and not oracle_only:
+        model = [parse_world_answer(c, a) for c, a in zip(cases, vlib.run_driver(PROP, [world_line(c) for c in cases]))]
+    for k, (c, out) in enumerate(zip(cases, impl)):
+        res.case(('world', c['diffusion'], tuple(o[0] for o in c['ops']), tuple(s[0] for s in c['store']), round(c['times'][0], 6)),
+                 any(o[0] == 'W' for o in c['ops']) or sum(o[0] in 'CA' for o in c['ops']) > 1)
+        m = None
+        if model is not None:
+            m = model[k]
+            if m is None:
+                res.disagree('world model error', c, 'ok', 'err')
+        check_world_case(res, c, out, m)
+
+
 # =====================================================================================
 # 2. real runs
 # =====================================================================================
@@ -456,17 +676,27 @@ def gen_run_case(rng, kind, thorough=False):
         pbm, mode = 'small', 'fixed'
     return {'family': 'run', 'kind': kind, 'spec': spec, 'via': rng.choice(['ctor', 'setter']), 'solver': solver, 'mode': mode,
             'n': n, 'sim': sim, 'maxTC': maxTC, 'method': 'curvature', 'pbm': pbm, 'preload': pbm == 'small',
-            'solves': rng.choice([1, 1, 2]), 'poke': pbm == 'small'}
+            'solves': rng.choice([1, 1, 2]), 'poke': pbm == 'small', 'container': rng.choice(['list', 'f64'])}
 
 
-def make_model(case):
+def run_args(case):
+    """the objects handed to kawin for this run's schedule; break points as lists or as float64 ndarrays"""
+    a = spec_args(case['spec'])
+    args = py_args(a)
+    if a[0] == '2' and case.get('container', 'list') == 'f64':
+        args = (np.array(args[0], dtype=np.float64), np.array(args[1], dtype=np.float64))
+    return args
+
+
+def make_model(case, args=None):
     vlib.use_repo()
     from kawin.precipitation import PrecipitateModel, VolumeParameter, TemperatureParameters
     therm = get_therm(case['method'])
     a = spec_args(case['spec'])
+    args = run_args(case) if args is None else args
     kw = {}
     if case['via'] == 'ctor':
-        kw['temperatureParameters'] = TemperatureParameters(*py_args(a))
+        kw['temperatureParameters'] = TemperatureParameters(*args)
     m = PrecipitateModel(phases=['AL3ZR'], elements=['ZR'], **kw)
     if case['pbm'] == 'small':
         m.setPBMParameters(cMin=1e-10, cMax=2e-9, bins=20, minBins=10, maxBins=28)
@@ -481,15 +711,31 @@ def make_model(case):
     m.setNucleationSite('dislocations')
     m.setThermodynamics(therm)
     if case['via'] == 'setter':
-        m.setTemperature(*py_args(a))
+        m.setTemperature(*args)
     m.setConstraints(maxTempChange=case['maxTC'])
+    m._c13_args = args
     return m
 
 
-def traced_run(case):
+def args_unchanged(res, case, args, where):
+    """the break-point arrays handed to kawin still hold what the case specified"""
+    a = spec_args(case['spec'])
+    if a[0] != '2':
+        return True
+    for name, given, want in (('hours', args[0], a[1]), ('kelvin', args[1], a[2])):
+        got = [float(x) for x in given]
+        if got != [float(x) for x in want]:
+            res.violate('specification-modifies-argument-%s-precipitation-%s' % (case.get('container', 'list'), where),
+                        "the caller's %s array (%s) was changed in place by specifying / running the schedule (%s)" % (name, case.get('container', 'list'), where),
+                        {k: case[k] for k in case}, got, [float(x) for x in want])
+            return False
+    return True
+
+
+def traced_run(case, args=None):
     """runs the real model with run-time wrappers; returns the log"""
     with quiet():
-        m = make_model(case)
+        m = make_model(case, args)
     from kawin.solver import SolverType
     therm = m.therm
     therm.clearCache()     # warm-start data of earlier runs changes results in the 13th digit: every run starts cold (replayable, pairs comparable)
@@ -663,6 +909,8 @@ def check_run(ctx, res, case, oracle_only=False):
     if out['err']:
         res.violate('run-raised', 'the run raised ' + out['err'], desc)
         return out
+    res.count('container:' + case.get('container', 'list'))
+    args_unchanged(res, case, m._c13_args, 'constructor' if case['via'] == 'ctor' else 'setTemperature')
     ops, growth, times, problems = events_to_ops(ev)
     for p in problems:
         res.disagree('call sequence: ' + p, desc, p, 'grammar of Model/Lookup.lean')
@@ -816,12 +1064,33 @@ ATTRIBUTES = ['time', 'temperature', 'composition', 'xEqAlpha', 'xEqBeta', 'driv
 def check_pair(ctx, res, case):
     """the same schedule through the constructor object and through the setter: identical runs"""
     a = dict(case, via='ctor'); b = dict(case, via='setter')
-    ra = traced_run(a); rb = traced_run(b)
-    res.count('paired ctor/setter runs')
+    # the user keeps ONE pair of break-point arrays and uses it for both models (float64 ndarrays or lists)
+    shared = run_args(case)
+    ra = traced_run(a, shared); rb = traced_run(b, shared)
+    res.count('paired ctor/setter runs'); res.count('paired container:' + case.get('container', 'list'))
     ma, mb = ra['model'], rb['model']
     desc = {k: case[k] for k in case if k != 'via'}
     if ra['err'] or rb['err']:
         res.violate('run-raised', 'paired run raised %s / %s' % (ra['err'], rb['err']), desc); return
+    args_unchanged(res, desc, shared, 'constructor+setTemperature')
+    sa = spec_args(case['spec'])
+    scale = max(abs(x) for x in (sa[2] if sa[0] == '2' else [sa[1]]))
+    for name, mm in (('constructor', ma), ('setter', mb)):
+        # both the recorded temperatures and the schedule objects after the runs, against the independent reference
+        tt = [float(x) for x in mm.pData.time]
+        rec = [float(x) for x in mm.pData.temperature]
+        with quiet():
+            aft = [float(mm.temperatureParameters(t)) for t in tt]
+        for i, t in enumerate(tt):
+            want = ref_sched(sa, t)
+            if want == 'tie':
+                res.near_tie_skipped += 1; continue
+            if not close(rec[i], want, 1e-9, scale) or not close(aft[i], want, 1e-9, scale):
+                res.violate('paired-run-temperature-%s' % name,
+                            'one pair of break-point arrays used for a constructor model and a setter model: the %s model %s at t = %r is not the schedule' % (
+                                name, 'recorded temperature' if not close(rec[i], want, 1e-9, scale) else 'schedule object evaluated after the runs', t),
+                            dict(desc, index=i), [rec[i], aft[i]], want)
+                break
     fa, fb = bool(ma.temperatureParameters._isIsothermal), bool(mb.temperatureParameters._isIsothermal)
     if fa != fb:
         res.violate('paired-run-flag', 'same schedule: constructor object has _isIsothermal = %s, setter %s' % (fa, fb), desc, fa, fb)
@@ -848,6 +1117,7 @@ def corr(ctx, oracle_only=False, scale=1.0):
                 'non-trivial = non-isothermal schedule (a) / non-isothermal run with > 5 recorded steps (b); distinct = (family, op kinds | run parameters)')
     res.monitored = list(MONITORED)
     corr_sched(ctx, res, int(ctx.n(240, 12000) * scale), oracle_only)
+    corr_world(ctx, res, int(ctx.n(200, 8000) * scale), oracle_only)
     # ---- real runs
     kinds = list(KINDS)
     reps = ctx.n(2, 40)
@@ -878,6 +1148,8 @@ def corr(ctx, oracle_only=False, scale=1.0):
     for k in (['slow-heat', 'hold-ramp-hold', 'zigzag'] if not ctx.thorough else ['slow-heat', 'slow-cool', 'fast-cool', 'hold-ramp-hold', 'jump', 'zigzag', 'iso']):
         c = gen_run_case(ctx.rng, k)
         c['n'] = min(c['n'], 40)
+        if c['spec'][0] == 'two' and k != 'slow-cool':
+            c['container'] = 'f64'        # one pair of float64 ndarrays shared by the constructor model and the setter model
         check_pair(ctx, res, c)
     res.sample({'run': {k: cases[0][k] for k in ('kind', 'spec', 'solver', 'mode', 'maxTC', 'n')}})
     return res
@@ -898,6 +1170,10 @@ def replay(ctx, entry):
             return tuple(tup(x) if isinstance(x, list) and x and isinstance(x[0], str) else x for x in a)
         case = {'family': fam, 'ops': [(o[0], tup(o[1])) for o in c['ops']], 'times': c['times'], 'z': c.get('z')}
         corr_sched(ctx, res, 1, oracle_only=True, cases=[case])
+    elif fam == 'sched-world':
+        case = {'family': fam, 'diffusion': c['diffusion'], 'store': [(a[0], a[1]) for a in c['store']], 'ops': [tuple(o) for o in c['ops']],
+                'times': c['times'], 'z': c.get('z')}
+        corr_world(ctx, res, 1, oracle_only=True, cases=[case])
     elif fam == 'run':
         case = {k: v for k, v in c.items() if k not in ('call', 'index', 'time', 'attribute', 'step')}
         case['spec'] = tuple(case['spec'])
